@@ -120,15 +120,48 @@ func build(e *environ, spec *propSpec) (*built, error) {
 	for _, f := range hfiles {
 		overlay[filepath.Join(e.repo, spec.TestPkg, "zz_"+filepath.Base(f))] = f
 	}
-	if err := weave.WriteOverlay(filepath.Join(dir, "overlay.json"), overlay); err != nil {
-		return b, err
-	}
 	// modfile: the repository's go.mod plus harness-only requirements
 	mod, err := os.ReadFile(filepath.Join(e.repo, "go.mod"))
 	if err != nil {
 		return b, err
 	}
 	mod = append(mod, []byte("\nrequire github.com/anishathalye/porcupine v1.3.0\n")...)
+	// woven dependencies: files under GOMODCACHE cannot be overlaid, so the module is copied to
+	// the scratch directory, its woven files are written over the copies, and the scratch go.mod
+	// replaces the module with that directory
+	for _, rm := range spec.ReplaceModules {
+		src := filepath.Join(gomodcache(e), rm.Dir)
+		dst := filepath.Join(dir, "mods", filepath.Base(rm.Dir))
+		if err := copyTree(src, dst); err != nil {
+			return b, fmt.Errorf("copy module %s: %w", rm.Path, err)
+		}
+		for orig, woven := range overlay {
+			if strings.HasPrefix(orig, src+string(filepath.Separator)) {
+				data, err := os.ReadFile(woven)
+				if err != nil {
+					return b, err
+				}
+				if err := os.WriteFile(filepath.Join(dst, strings.TrimPrefix(orig, src)), data, 0o644); err != nil {
+					return b, err
+				}
+				delete(overlay, orig)
+			}
+		}
+		// the woven files use generics and range-over-func: raise the copy's language version
+		if gm, err := os.ReadFile(filepath.Join(dst, "go.mod")); err == nil {
+			lines := strings.Split(string(gm), "\n")
+			for i, l := range lines {
+				if strings.HasPrefix(strings.TrimSpace(l), "go ") {
+					lines[i] = "go 1.25"
+				}
+			}
+			os.WriteFile(filepath.Join(dst, "go.mod"), []byte(strings.Join(lines, "\n")), 0o644)
+		}
+		mod = append(mod, []byte(fmt.Sprintf("\nreplace %s => %s\n", rm.Path, dst))...)
+	}
+	if err := weave.WriteOverlay(filepath.Join(dir, "overlay.json"), overlay); err != nil {
+		return b, err
+	}
 	if err := os.WriteFile(filepath.Join(dir, "go.mod"), mod, 0o644); err != nil {
 		return b, err
 	}
@@ -148,6 +181,34 @@ func build(e *environ, spec *propSpec) (*built, error) {
 		return b, fmt.Errorf("go %s: %v\n%s", strings.Join(args, " "), err, tail(out.String(), 60))
 	}
 	return b, nil
+}
+
+func gomodcache(e *environ) string {
+	if v := os.Getenv("GOMODCACHE"); v != "" {
+		return v
+	}
+	return "/root/go/pkg/mod"
+}
+
+func copyTree(src, dst string) error {
+	return filepath.Walk(src, func(p string, info os.FileInfo, err error) error {
+		if err != nil {
+			return err
+		}
+		rel, _ := filepath.Rel(src, p)
+		target := filepath.Join(dst, rel)
+		if info.IsDir() {
+			return os.MkdirAll(target, 0o755)
+		}
+		if strings.HasSuffix(p, "_test.go") {
+			return nil
+		}
+		data, err := os.ReadFile(p)
+		if err != nil {
+			return err
+		}
+		return os.WriteFile(target, data, 0o644)
+	})
 }
 
 func tail(s string, n int) string {
